@@ -76,6 +76,17 @@ package scen
 //   response-malformed / response-mismatch / unsolicited-response
 //                                exactly one well-formed response (same message type) per request
 //
+// The host's OTHER notifications (c13_pstore.go): between reachability events
+// the scenario also emits, as steps of their own, what a real host puts on the
+// same bus — identification completed / protocols updated for a peer (that
+// speaks the DHT protocol or not, drawn), a peer disconnected, local addresses
+// updated — each with a drawn transient peerstore fault (the n-th protocol-book
+// read fails once). The property's clauses do not mention them, so all rules
+// stay as they are: in particular auto-mode-wrong demands that the node still
+// follows the next reachability event ("the mode after ANY sequence of
+// reachability events is determined by the last event"). No rule is attached to
+// what the node does with the peer (routing-table admission is C12's subject).
+//
 // Not judged: virtual time does not advance in the main phase, so the node's
 // idle-stream time-out (a legitimate reason to reset a stream in server mode)
 // never interferes.
@@ -106,7 +117,9 @@ func init() {
 			"probe_promotion", "probe_demotion", "probe_demotion_open_streams", "probe_same_mode_event",
 			"probe_request_after_demotion_old_stream", "probe_request_unswept_stream_client", "probe_refused_negotiation_client",
 			"probe_split_across_switch", "probe_inflight_across_switch", "probe_window_across_demotion",
-			"probe_fixed_mode_event", "probe_pre_construction_event", "probe_answered", "probe_stream_reused_server"},
+			"probe_fixed_mode_event", "probe_pre_construction_event", "probe_answered", "probe_stream_reused_server",
+			"fault_peerstore_error", "probe_peer_event_ident", "probe_peer_event_protocols", "probe_peer_event_disconnected", "probe_local_addrs_event",
+			"probe_peer_event_speaks_dht", "probe_reach_event_after_other_event", "probe_switch_after_peerstore_error"},
 	})
 }
 
@@ -182,6 +195,7 @@ func runC13(s *sim.Sim) {
 	reqsLeft := s.Range("requests", 1, 12)
 	eofLeft := s.Draw("eofs", 3)
 	preEvent := s.Chance("pre-event", 1, 4)
+	othersLeft := s.Draw("other-events", 4) // the host's other notifications (0: none)
 	// the node's own DHT protocol ID (public options; value 0/1: the plain one)
 	exact := c13Proto
 	protoOpts := []dht.Option{dht.ProtocolPrefix("/sim")}
@@ -237,16 +251,33 @@ func runC13(s *sim.Sim) {
 		s.Tracef("pre-construction event %v", r)
 	}
 
-	d, err := dht.New(h, append(protoOpts, dht.Mode(opt), dht.DisableAutoRefresh())...)
+	// the node sees the host through a peerstore that can fail (c13_pstore.go)
+	hw := newC13Host(h)
+	emOther := map[string]event.Emitter{}
+	for _, x := range []struct {
+		name string
+		typ  any
+	}{{"ident", new(event.EvtPeerIdentificationCompleted)}, {"protocols", new(event.EvtPeerProtocolsUpdated)},
+		{"connectedness", new(event.EvtPeerConnectednessChanged)}, {"addrs", new(event.EvtLocalAddressesUpdated)}} {
+		e, err := h.RealBus().Emitter(x.typ)
+		if err != nil {
+			panic(err)
+		}
+		defer e.Close()
+		emOther[x.name] = e
+	}
+
+	d, err := dht.New(hw, append(protoOpts, dht.Mode(opt), dht.DisableAutoRefresh())...)
 	if err != nil {
 		panic(err)
 	}
 	s.Quiesce()
-	s.Summary["cfg"] = fmt.Sprintf("mode=%s proto=%s remotes=%d events=%d streams=%d requests=%d parkWrites=%v preEvent=%v", optNames[oi], exact, nRemotes, eventsLeft, streamsLeft, reqsLeft, fab.ParkWrites, preEvent)
+	s.Summary["cfg"] = fmt.Sprintf("mode=%s proto=%s remotes=%d events=%d others=%d streams=%d requests=%d parkWrites=%v preEvent=%v", optNames[oi], exact, nRemotes, eventsLeft, othersLeft, streamsLeft, reqsLeft, fab.ParkWrites, preEvent)
 
 	var streams []*c13Stream
 	lastSwitch := 0
 	nSwitches, nAnswered, nRefused, nResetByNode := 0, 0, 0, 0
+	afterOther, afterPsFault := false, false // another notification since the last reachability event / a peerstore error so far
 	answered := map[string]bool{}
 
 	parkedWrites := func() map[*simhost.Stream]bool {
@@ -423,6 +454,13 @@ func runC13(s *sim.Sim) {
 					panic(err)
 				}
 				s.Quiesce()
+				if afterOther {
+					s.Count("probe_reach_event_after_other_event")
+				}
+				if afterPsFault && before != after {
+					s.Count("probe_switch_after_peerstore_error")
+				}
+				afterOther = false
 				switch {
 				case fixed:
 					s.Count("probe_fixed_mode_event")
@@ -456,6 +494,61 @@ func runC13(s *sim.Sim) {
 						}
 					}
 				}
+			}})
+		}
+		if othersLeft > 0 {
+			acts = append(acts, sim.Action{ID: "host-event", Do: func() {
+				othersLeft--
+				afterOther = true
+				kind := s.Draw("host-event-kind", 4)
+				q := u.Peers[nRemotes] // a peer the node has no connection to
+				var ev any
+				var emr event.Emitter
+				switch kind {
+				case 0, 1:
+					// whom it is about: a connected remote or that other peer
+					q = u.Peers[s.Draw("about", nRemotes+1)]
+					// what identify left in the peerstore about the peer (writes never fail)
+					speaks := s.Chance("speaks-dht", 1, 2)
+					if speaks {
+						_ = h.Peerstore().SetProtocols(q.ID, exact, "/sim/other/1.0.0")
+						s.Count("probe_peer_event_speaks_dht")
+					} else {
+						_ = h.Peerstore().SetProtocols(q.ID, "/sim/other/1.0.0")
+					}
+					if kind == 0 {
+						ev, emr = event.EvtPeerIdentificationCompleted{Peer: q.ID}, emOther["ident"]
+						s.Count("probe_peer_event_ident")
+					} else {
+						pe := event.EvtPeerProtocolsUpdated{Peer: q.ID}
+						if speaks {
+							pe.Added = []protocol.ID{exact}
+						} else {
+							pe.Removed = []protocol.ID{exact}
+						}
+						ev, emr = pe, emOther["protocols"]
+						s.Count("probe_peer_event_protocols")
+					}
+				case 2:
+					ev, emr = event.EvtPeerConnectednessChanged{Peer: q.ID, Connectedness: network.NotConnected}, emOther["connectedness"]
+					s.Count("probe_peer_event_disconnected")
+				default:
+					ev, emr = event.EvtLocalAddressesUpdated{Diffs: true}, emOther["addrs"]
+					s.Count("probe_local_addrs_event")
+				}
+				fault := s.Draw("peerstore-fault", 3) // 0: none; n: the n-th protocol-book read from now fails once
+				hw.ps.arm(fault)
+				s.Tracef("host event kind=%d about %s, peerstore fault at read %d", kind, q.Name, fault)
+				if err := emr.Emit(ev); err != nil {
+					panic(err)
+				}
+				s.Quiesce()
+				reads, failed := hw.ps.disarm()
+				if failed > 0 {
+					afterPsFault = true
+					s.Count("fault_peerstore_error")
+				}
+				s.Tracef("host event processed: %d protocol-book reads, %d failed", reads, failed)
 			}})
 		}
 		if streamsLeft > 0 {
